@@ -53,10 +53,17 @@ def strategy(tier):
         st.just(["refresh"]),
         st.sampled_from([0.0, 0.05, 0.3, 1.0, 5.0]).map(lambda d: ["gap", d]),
     )
+    # macro: the history shape behind 'replayed from an earlier message': a change, the same bytes overwritten on the spa and
+    # fetched by a completed refresh, then a message with few / no records (flattened into the op list)
+    h2 = st.binary(min_size=2, max_size=2).map(bytes.hex)
+    macro = st.tuples(st.integers(257, 700), h2, h2, st.sampled_from([0.6, 1.0, 3.0]),
+                      st.one_of(st.just([]), st.lists(rec, max_size=1))).map(
+        lambda t: [["statp", [[t[0], t[1]]]], ["gap", 0.3], ["simpoke", t[0], t[2]], ["refresh"], ["gap", t[3]], ["statp", t[4]]])
+    item = st.one_of(ops.map(lambda o: [o]), ops.map(lambda o: [o]), ops.map(lambda o: [o]), macro)
     jitter = st.one_of(st.just([]), st.lists(st.sampled_from([0.0, 0.0, 0.01, 0.02]), min_size=1, max_size=5))
-    return st.builds(lambda k, seed, o, j: {"k": k, "seed": seed, "ops": o, "jitter": j if k == "async" else []},
+    return st.builds(lambda k, seed, o, j: {"k": k, "seed": seed, "ops": [x for grp in o for x in grp][:14], "jitter": j if k == "async" else []},
                      st.sampled_from(["async", "async", "threaded"]), st.integers(0, 2**31),
-                     st.lists(ops, min_size=1, max_size=14), jitter)
+                     st.lists(item, min_size=1, max_size=10), jitter)
 
 
 def _classify(ops):
